@@ -196,7 +196,7 @@ REGISTRY = {
         "rules": [
             registries.rule_compress_registry_1d, registries.rule_full_span, registries.rule_centre_shift, exponent.rule_sum_exponents, memo.rule_density_orientation,
             P(iso.rule_iso_claim, only_modules=("quimb.tensor.tensor_core",), rule="iso-claim[arithmetic]"),
-            registries.rule_fill_fn_siblings, registries.rule_length_delivered, registries.rule_ctor_length_siblings,
+            registries.rule_fill_fn_siblings, registries.rule_length_delivered, registries.rule_ctor_length_siblings, registries.rule_transpose_order_domain,
             P(dmrg.rule_sweep_memory, sites=[("quimb.tensor.tn1d.compress", "tensor_network_1d_compress_fit", None, "prepare")], rule="sweep-memory[fit]"),
             P(optflow.rule_option_delivery, opts=("max_bond", "cutoff"), modules=("quimb.tensor.tn1d",), rule="cap-delivery[1d]", floor=40),
             P(registries.rule_mode_total, specs=[
@@ -515,6 +515,7 @@ _ALSO4 = {
     "C07": " Sites re-bound to a sorted version are not handed on next to the unpermuted operator (permutation-tracking MPS).",
     "C16": " A buffer capacity that grows by doubling is seeded with a value that is positive whenever the sizes are (sign / zero abstract evaluation).",
     "C08": " The record is updated only for the object handed back (satisfiability of fork vs in-place receiver); a compressed swap canonicalizes the pair before it moves the record.",
+    "C09": " The axes list the MPS / MPO constructors hand to transpose() enumerates the result layout (not the inverse permutation).",
     "C10": " A truncating two-site update renormalises the kept spectrum; the one-site sweep enforces the bond cap explicitly.",
     "C11": " A single-site term keeps the side it was assigned to when its bond is flipped; cyclic imaginary-time sweeps renormalise with the full norm.",
     "C12": " Environments stored from a working network that is contracted further are private copies; a copy used together with `gauges=G` is taken before G is re-inserted; norms are stripped from the contracted boundary only.",
